@@ -104,12 +104,15 @@ def res2Float (b : Nat) : Nat := b
 /-- `INT16TOSIG(a) = (float)(a)` (arch.h:380), used by `downmix_int` (opus_encoder.c:722-743). -/
 def int16ToSig (a : Int) : Nat := ofScaled (a * 2 ^ 149) 0
 
+/-- A finite float value `k·2^-149` times `2^-d`, rounded (`none` cannot occur for the operands below). -/
+def scaleVal (v : Option Int) (d : Nat) : Nat :=
+  match v with
+  | some k => ofScaled k d
+  | none => 0
+
 /-- `INT24TOSIG(a) = (float)(a)*(1.f/256.f)` (arch.h:381), used by `downmix_int24`:
     `cvtsi2ss` rounds the int32, the multiplication by 2^-8 rounds again. -/
-def int24ToSig (a : Int) : Nat :=
-  match val (ofScaled (a * 2 ^ 149) 0) with
-  | some k => ofScaled k 8
-  | none => 0
+def int24ToSig (a : Int) : Nat := scaleVal (val (ofScaled (a * 2 ^ 149) 0)) 8
 
 /-- `FLOAT2SIG(a) = (a)*CELT_SIG_SCALE` (arch.h:379), used by `downmix_float`. -/
 def float2Sig (b : Nat) : Nat := mulPow2 b 15
@@ -136,6 +139,19 @@ def celtFloat2Int16 (xs : List Nat) : List Int := xs.map float2Int16
 
 /-- Saturation to the int16 range. -/
 def sat16 (z : Int) : Int := if z < -32768 then -32768 else if 32767 < z then 32767 else z
+
+/-! ### projection (mapping family 3) 16-bit output: `mapping_matrix_multiply_channel_out_short` -/
+
+/-- One accumulation step (src/mapping_matrix.c:211-221), for one decoded stream channel with Q15 matrix
+    cell `m` and float sample bits `b`:
+    `input_sample = RES2INT16(input[..]); tmp = m * input_sample; tmp = output + ((tmp + 16384) >> 15);
+     output = (opus_int16)IMAX(-32768, IMIN(32767, tmp));`  (`>> 15` on int32 is the arithmetic shift = floor). -/
+def projStep (acc m : Int) (b : Nat) : Int := sat16 (acc + (m * float2Int16 b + 16384) / 32768)
+
+/-- The 16-bit output sample of one output channel: the output is cleared when the first stream channel
+    is copied (src/opus_projection_decoder.c:84-85), then every stream channel accumulates in order. -/
+def projOut16 (cells : List Int) (samples : List Nat) : Int :=
+  (List.zip cells samples).foldl (fun acc p => projStep acc p.1 p.2) 0
 
 /-! ### the entry points, reduced to what they hand to the shared core
 
